@@ -333,7 +333,8 @@ Scalar MASA::fans_sa_transient_free_shear<Scalar>::eval_exact_u(Scalar x,Scalar 
   using std::sin;
 
   Scalar u_an;
-  u_an = u_0 + u_x * sin(a_ux * pi * x / L) + u_y * cos(a_uy * pi * y / L);
+  // t = 0 section of the transient field (the temporal term is u_t * cos(a_ut * pi * t / L))
+  u_an = u_0 + u_x * sin(a_ux * pi * x / L) + u_y * cos(a_uy * pi * y / L) + u_t;
   return u_an; 
 }
 
@@ -355,7 +356,8 @@ Scalar MASA::fans_sa_transient_free_shear<Scalar>::eval_exact_p(Scalar x,Scalar 
   using std::sin;
 
   Scalar p_an;
-  p_an = p_0 + p_x * cos(a_px * pi * x / L) + p_y * sin(a_py * pi * y / L);
+  // t = 0 section of the transient field (the temporal term is p_t * cos(a_pt * pi * t / L))
+  p_an = p_0 + p_x * cos(a_px * pi * x / L) + p_y * sin(a_py * pi * y / L) + p_t;
   return p_an;
 
 }
